@@ -73,6 +73,9 @@ WITNESSES = {
                                         fn(0, [], 'int', seq(('let', True, 3, 'int', N(2)),
                                                              ('for', 4, N(0), ('call', 1, [V(3)]), seq(P(V(4)), ('set', 3, N(4)))),
                                                              ('ret', N(0))))]),
+    # an array literal with more than 65535 elements: every element counts (the bytecode's ARR_LITERAL has a 16-bit count operand)
+    'lang:array-literal-count-u16': prog([fn(0, [], 'int', seq(('let', False, 1, 'arr', ('arr', [N(i % 7) for i in range(65537)])),
+                                                               P(('len', V(1))), P(('at', V(1), N(65536))), ('ret', N(0))))]),
     # run-time overflow (through variables): wraps
     'lang:runtime-overflow': prog([fn(0, [], 'int', seq(('let', False, 1, 'int', N(9223372036854775807)), P(('bin', 'add', V(1), N(1))),
                                                         P(('bin', 'mul', V(1), V(1))), P(('un', 'neg', ('bin', 'sub', ('un', 'neg', V(1)), N(1)))), ('ret', N(0))))]),
